@@ -47,6 +47,7 @@ type Obligation struct {
 
 type Engine struct {
 	havocSeq int
+	CheckProp string // property being checked (govc check): selects labelled focus clauses
 	P          *Program
 	C          *Ctx
 	Obls       []*Obligation
